@@ -517,6 +517,10 @@ def write(
         click.echo(f"path: {write_result['path']}")
         click.echo(f"canonical_hash: {write_result['canonical_hash']}")
         click.echo(f"validation_status: {validation_status}")
+        # I5: INVALID is reported together with the errors that make it so (as `octave validate` does)
+        if validation_status == "INVALID":
+            for error in validation_errors:
+                click.echo(f"  {error.code}: {error.message}", err=True)
 
     except SystemExit:
         raise
